@@ -30,9 +30,31 @@ def run_c14(ctx, props, stray=False):
             impl_phase(ctx, "rand", exe, ["random", ctx.seed, 20000, 3], [4, 12, 1, 0], "TraceArr", "", consts(4), props)
 
 
+def big_probe(ctx):
+    """indexes at and beyond 2^31 (where an `int` index would wrap): limb arithmetic in TraceArrBig.tla"""
+    exe = build(ctx, "drv_arr_big", "drv_arr.c", LIB, wrap=WRAP)
+    trace = ctx.work / "big.ndjson"
+    rc, out = sh([str(exe), "bigprobe", str(trace)], timeout=120)
+    if rc != 0:
+        raise HarnessError("bigprobe failed: " + out[-1000:])
+    r = tlc(ctx, "tv-big", "TV_big", mc_module("TV_big", "TraceArrBig"), "SPECIFICATION TSpec\nINVARIANT Done\nCHECK_DEADLOCK FALSE\n",
+            env={"TRACE": str(trace)}, workers=1, heap="2g")
+    if not (r.rc == 0 and any(x.startswith('"TRACE-END"') for x in r.prints)):
+        raise HarnessError("TLC failed on bigprobe: " + r.out[-1500:])
+    bad = [int(x.split(",")[2]) for x in r.prints if x.startswith('"L2FAIL"')]
+    n = sum(1 for _ in open(trace)) - 1
+    for rid in sorted(bad)[:3]:
+        hdr, rec = find_record(trace, rid)
+        violation(ctx, f"cstl_array_at beyond 2^31 elements: {json.dumps(rec)}", {"signature": "arr:atbig", "record": rec})
+    ctx.cov["traces_validated_against_impl"] += n
+    ctx.cov["impl_runs"].append({"phase": "bigprobe", "mode": "probe", "calls_validated": n, "l2_failures": len(bad)})
+    ctx.log(f"bigprobe: {n} cstl_array_at calls on a 2^31+4096 element buffer validated, {len(bad)} wrong")
+
+
 def run(ctx):
     props = {ctx.pid}
     run_c14(ctx, props)
+    big_probe(ctx)
     ctx.assumptions += [
         "TLC and the TLA+ text of Contract / ViewOK / LifeOK in ArrOps.tla are trusted",
         "the private descriptor {sz, nm, buf} is read through a mirror of its layout; containment of every index below size is "
